@@ -1593,6 +1593,14 @@ where
     ) -> Result<()> {
         match state {
             State::Suspect => {
+                // Our identity is already down (we left the cluster or were
+                // declared down and couldn't rejoin): refuting suspicion and
+                // gossiping about it would keep a dead identity alive in the
+                // eyes of members that haven't learned about it yet
+                if self.connection_state == ConnectionState::Undead {
+                    return Ok(());
+                }
+
                 let increase_incarnation = match self.incarnation.cmp(&incarnation) {
                     // This can happen when a member received an update about
                     // someone else suspecting us but hasn't received our
